@@ -797,7 +797,10 @@ class _ActionSubCommands(_SubParsersAction):
 
             # Update all subcommand settings
             if subnamespace is not None:
-                cfg[key] = subparser.merge_config(cfg.get(key, Namespace()), subnamespace)
+                subcfg = cfg.get(key, Namespace())
+                if not isinstance(subcfg, Namespace):
+                    raise NSKeyError(f'Expected nested settings for subcommand "{key}", but got: {subcfg!r}')
+                cfg[key] = subparser.merge_config(subcfg, subnamespace)
 
             # Handle inner subcommands
             if subparser._subparsers is not None:
